@@ -192,6 +192,9 @@ pub fn exec_flt_geo<S: Sc + BaseFloat>(op: &str, f: &str, a: &[Val<S>]) -> Optio
     try_all!(rot_q, rot_b3, rot_b2, ctor_q, ctor_b3, ctor_m3, ctor_m4, metric_v1, metric_v2, metric_v3, metric_v4, metric_q,
              tf_m3_2, tf_m3_3, tf_m4, tf_dq, tf_d3, tf_d2, ang_rad, ang_deg);
     Some(match (op, a) {
+        ("distance", [P1(x), P1(y)]) => N(x.distance(*y)),
+        ("distance", [P2(x), P2(y)]) => N(x.distance(*y)),
+        ("distance", [P3(x), P3(y)]) => N(x.distance(*y)),
         // ----- quaternion algebra
         ("add", [Q(x), Q(y)]) => Q(bin4a!(f, *x, *y, +, +=)),
         ("sub", [Q(x), Q(y)]) => Q(bin4a!(f, *x, *y, -, -=)),
